@@ -11,7 +11,7 @@ from hypothesis import strategies as st
 PROPERTY = "C04"
 RULE = ("rows:<class>: for every fitted registry class with row-wise semantics Hypothesis draws a configuration, a training set, a query "
         "batch that contains training rows, duplicated rows, new rows and far-away rows (rows in discretizer cells / leaves / clusters "
-        "unseen at training time), and index sets: a permutation, a sub-batch and single rows. Oracle (metamorphic): for every public "
+        "unseen at training time), and index sets: a permutation, a sub-batch and every single row (batches of up to 32 rows). Oracle (metamorphic): for every public "
         "method, f(batch)[idx] == f(batch[idx]); f(batch) twice agree exactly and the array returned first keeps its values while the other batches go through the model; pickle.loads(pickle.dumps(model)) answers exactly the same; "
         "clone_with_fitted_parameters(model) either refuses in its documented way (RuntimeError for callable attributes) or answers exactly "
         "the same and leaves the original untouched. ConstraintKMeans(balanced_predictions=True) is the documented exception and is "
@@ -106,7 +106,8 @@ def check_rows(case):
     perm = [i % m for i in case["perm"]][:m]
     perm = list(dict.fromkeys(perm)) + [i for i in range(m) if i not in perm]       # a permutation of range(m)
     sub = sorted(set(i % m for i in case["sub"]))
-    singles = sorted(set(i % m for i in case["singles"]))
+    # every row also travels alone when the batch is small (a row sitting exactly on a decision border behaves differently only when alone)
+    singles = list(range(m)) if (m <= 32 and case.get("all_singles", True)) else sorted(set(i % m for i in case["singles"]))
     labels = [name]
     nontrivial = False
     methods = entry.available(est)
@@ -189,8 +190,10 @@ def _cases(draw, name, tier="quick"):
 
 def _clause(name):
     heavy = name in ("ConstraintKMeans", "ApproximateNMFPredictor", "DecisionTreeLogisticRegression", "ClassifierAfterKMeans", "PiecewiseClassifier", "PiecewiseRegressor")
-    return Clause("rows:" + name, check_rows, strategy=lambda tier, n=name: _cases(n, tier), quick=60 if heavy else 100,
-                  thorough=800 if heavy else 1500, quick_shards=1, thorough_shards=2, doc="batch vs sub-batches / permutations / single rows, repeat, pickle, clone_with_fitted_parameters on %s" % name)
+    # the tree of logistic regressions has data-dependent borders (a row exactly on a node threshold): it gets many more cases
+    border = name == "DecisionTreeLogisticRegression"
+    return Clause("rows:" + name, check_rows, strategy=lambda tier, n=name: _cases(n, tier), quick=640 if border else (60 if heavy else 100),
+                  thorough=6000 if border else (800 if heavy else 1500), quick_shards=8 if border else 1, thorough_shards=8 if border else 2, doc="batch vs sub-batches / permutations / single rows, repeat, pickle, clone_with_fitted_parameters on %s" % name)
 
 
 CLAUSES = [_clause(n) for n in sorted(R.ENTRIES)]
